@@ -187,6 +187,7 @@ theorem implL_conv (xs : List Val) (st : LStep) : implL xs (convStep st) = implL
   | contains v => rfl
   | index v => rfl
   | count v => rfl
+  | indexIn v a b => rfl
   | getBad => rfl
   | setBad => rfl
   | delBad => rfl
@@ -252,6 +253,7 @@ theorem admissible_of_conv {xs : List Val} {st : LStep} (h : admissibleConvL xs 
   | contains v => rfl
   | index v => rfl
   | count v => rfl
+  | indexIn v a b => rfl
   | getBad => rfl
   | setBad => rfl
   | delBad => rfl
@@ -275,14 +277,54 @@ symbolic form, so its argument stays under the `missingFree` restriction. -/
 def convStepD (st : DStep) : DStep :=
   ⟨match st.op with
     | .set k v => .set k (conv v)
-    | .update pairs => .update (pairs.map convKV)
-    | .rebind pairs => .rebind (pairs.map convKV)
+    | .update pairs kw => .update (pairs.map convKV) (kw.map convKV)
+    | .rebind pairs kw => .rebind (pairs.map convKV) (kw.map convKV)
     | op => op, st.notify⟩
 
 def admissibleConvD (st : DStep) : Bool :=
   match st.op with
   | .setdefault _ d => missingFree d
+  | .update pairs kw => mergeOk (pairs ++ kw)
+  | .rebind pairs kw => mergeOk (pairs ++ kw)
   | _ => true
+
+theorem hasKey_map_convKV (kvs : List (Key × Val)) (k : Key) : hasKey (kvs.map convKV) k = hasKey kvs k := by
+  unfold hasKey
+  simp [List.any_map, Function.comp_def, convKV]
+
+theorem dictSet_convKV (acc : List (Key × Val)) (k : Key) (v : Val) :
+    dictSet (acc.map convKV) k (conv v) = (dictSet acc k v).map convKV := by
+  unfold dictSet
+  rw [hasKey_map_convKV]
+  split
+  · simp only [List.map_map]
+    apply List.map_congr_left
+    intro p _
+    simp only [Function.comp_def, convKV]
+    split <;> simp_all
+  · simp [convKV]
+
+theorem mergePairs_convKV (ps : List (Key × Val)) :
+    PgDict.mergePairs (ps.map convKV) = (PgDict.mergePairs ps).map convKV := by
+  unfold PgDict.mergePairs
+  have : ∀ acc : List (Key × Val),
+      (ps.map convKV).foldl (fun acc p => dictSet acc p.1 p.2) (acc.map convKV) =
+        (ps.foldl (fun acc p => dictSet acc p.1 p.2) acc).map convKV := by
+    induction ps with
+    | nil => intro acc; rfl
+    | cons p ps ih =>
+      intro acc
+      simp only [List.map_cons, List.foldl_cons]
+      have := dictSet_convKV acc p.1 p.2
+      simp only [convKV] at this ⊢
+      rw [this]
+      exact ih _
+  exact this []
+
+theorem distinctKeysB_convKV (ps : List (Key × Val)) : distinctKeysB (ps.map convKV) = distinctKeysB ps := by
+  induction ps with
+  | nil => rfl
+  | cons p ps ih => simp [distinctKeysB, ih, convKV, List.all_map, Function.comp_def]
 
 theorem dsetItemRaw_conv (kvs : List (Key × Val)) (k : Key) (v : Val) :
     PgDict.setItemRaw kvs k (conv v) = PgDict.setItemRaw kvs k v := by
@@ -296,17 +338,40 @@ theorem setAll_conv (kvs pairs : List (Key × Val)) :
     obtain ⟨k, v⟩ := p
     simp only [List.map_cons, convKV, PgDict.setAll, dsetItemRaw_conv, ih]
 
+theorem mergeOk_convKV (ps : List (Key × Val)) : mergeOk (ps.map convKV) = mergeOk ps := by
+  unfold mergeOk
+  rw [distinctKeysB_convKV]
+  simp [List.all_map, Function.comp_def, convKV, isMissing_conv]
+
 theorem admissibleD_conv {st : DStep} (h : admissibleConvD st = true) : admissibleD (convStepD st) = true := by
   obtain ⟨op, nt⟩ := st
-  cases op <;> first
-    | rfl
-    | simpa [admissibleD, convStepD, admissibleConvD] using h
-    | simp [admissibleD, convStepD, convKV, missingFree_conv]
+  have hmf : ∀ ps : List (Key × Val), (ps.map convKV).all (fun p => missingFree p.2) = true := by
+    intro ps
+    simp [List.all_map, Function.comp_def, convKV, missingFree_conv]
+  cases op with
+  | set k v => simp [admissibleD, convStepD, missingFree_conv]
+  | setdefault k d => simpa [admissibleD, convStepD, admissibleConvD] using h
+  | update pairs kw =>
+    simp only [admissibleConvD] at h
+    simp only [admissibleD, convStepD, ← List.map_append, mergeOk_convKV, h, hmf, Bool.and_self]
+  | rebind pairs kw =>
+    simp only [admissibleConvD] at h
+    simp only [admissibleD, convStepD, ← List.map_append, mergeOk_convKV, h, hmf, Bool.and_self]
+  | get k => rfl
+  | getD k d => rfl
+  | contains k => rfl
+  | len => rfl
+  | del k => rfl
+  | pop k d => rfl
+  | popitem => rfl
+  | clear => rfl
+  | copy => rfl
 
 theorem implD_conv (kvs : List (Key × Val)) (st : DStep) : implD kvs (convStepD st) = implD kvs st := by
   obtain ⟨op, nt⟩ := st
   cases op <;> first
     | rfl
-    | simp only [convStepD, implD, dsetItemRaw_conv, setAll_conv, List.isEmpty_map]
+    | simp only [convStepD, implD, dsetItemRaw_conv, ← List.map_append, mergePairs_convKV, setAll_conv,
+        List.isEmpty_map]
 
 end Pg.C02
